@@ -17,6 +17,10 @@ Layout facts the oracle relies on (taken from the property statement):
   *row* vector v with the grid M (``result[j] = sum_k v[k] * M[k][j]``); the
   constructors agree with that reading (translations live in the last row).
 
+The inverse is additionally run on scaled copies of small complete grids
+(part ``mat4_inverse_scaled``): regular matrices with tiny / huge determinants
+must still be inverted, singular ones with large entries still reported.
+
 A case is a small JSON-able tuple; ``replay`` re-runs exactly one of them.
 """
 import itertools
@@ -55,7 +59,21 @@ RULE = (
     'matrices.  ~Mat4: complete {0,1}^16 and R^4 row-product grids (R = 12 '
     'dense/unit row vectors, 18 in the thorough tier) with Fraction entries '
     '(M @ ~M == I == ~M @ M exactly), thorough = the '
-    'complete {-1,0,1}^16 grid (43 046 721 matrices).  Piecewise operations '
+    'complete {-1,0,1}^16 grid (43 046 721 matrices).  ~Mat4 on scaled '
+    'matrices (part mat4_inverse_scaled; det is homogeneous, so tiny / huge '
+    'determinants of regular matrices and large entries of singular ones): '
+    'every matrix of a complete row-product grid B^4, singular members '
+    'included (Fraction inputs: B = the first 6 rich rows; float inputs: B '
+    '= 6 integer rows; thorough adds the 12 rich rows / 8 integer rows and '
+    'the complete {0,1}^16 grid) x scaling mode (all 16 entries, one row '
+    'i = 0..3, one column j = 0..3) x factor s in {2^-7, 2^-10, 1/1000, '
+    '2^10} (floats: '
+    'the three powers of two), plus every affine matrix [[s*A, 0], [t, 1]] '
+    'with A in {0,1}^9 (thorough: {-1,0,1}^9), t one of 3 translations and '
+    'the same factors (det = s^3 det A, down to 2^-40 for the all-entries '
+    'mode).  Fraction inputs: ~M == adj/det and M @ ~M == I == ~M @ M '
+    'exactly; float inputs: entrywise relative 1e-12 against the exact '
+    'inverse of the float values.  Piecewise operations '
     '(clamp, limit): all weak orderings / complete quarter-step grids '
     'across the branch boundary.  Swizzling: every string of length 0..4 '
     'over {x,y,z,w,a} and every string of length 5 over the own letters.  '
@@ -113,6 +131,26 @@ ASSUMPTIONS = [
     'orthogonal_projection computes 2.0/width in floats: compared with the '
     'exact rational value with tolerance 1e-12, far below the spacing of '
     'the small-denominator rationals that occur on the grid.',
+    'mat4_inverse_scaled, float inputs: all entries are small integers '
+    'or halves times powers of two, every sum inside a 2x2 minor, a '
+    'cofactor or the determinant adds terms of one common power-of-two '
+    'scale (each term takes one entry per row and column; the mixed terms '
+    'of the affine matrices are multiplied by an exact 0), so minors, '
+    'cofactors and det are exact in binary floats and a singular float '
+    'matrix has det == 0.0 exactly.  Only 1/det and the 16 final products '
+    'round (<= 2^-52 relative together): the result is compared with the '
+    'exact inverse of the float values (itself verified two-sided over '
+    'Fractions) with relative tolerance 1e-12 per entry (entries whose exact '
+    'value is 0: 1e-12 of the largest entry).  This is a tolerance check, '
+    'but 1e-12 is far below any wrong-cofactor / wrong-branch deviation on '
+    'these grids (those differ by at least one unit of the integer '
+    'adjugate).  The scaled families are bounded: factors 2^-7, 2^-10, '
+    '10^-3, 2^10 only, smallest |det| = 2^-40 |det B| (about 1e-12), '
+    'largest = 2^40 |det B|; a wrong absolute singularity threshold far '
+    'below 1e-12 is outside the family.',
+    'A warning issued for a non-singular matrix is not demanded against '
+    '(statement silent); a non-singular matrix that comes back unchanged '
+    '(and is not its own inverse) is a violation.',
     'A singular Mat4 must come back equal to itself with at least one '
     'warning issued through the warnings module (recorded with '
     'catch_warnings, filter "always").',
@@ -1061,12 +1099,40 @@ def cases_mat4_inverse_full(tier):
     return [('tern', i, j) for i in range(81) for j in range(81)]
 
 
-def check_inverse_exact(m, hits):
-    """One Fraction matrix: exact comparison with adjugate/determinant and
-    exact two-sided products."""
+TINY_DET = F(1, 10 ** 6)        # |det| below this: 'tiny_determinant'
+HUGE_DET = F(10 ** 6)           # |det| above this: 'huge_determinant'
+LARGE_ENTRY = 1024              # singular_with_large_entries: max |entry|
+FLOAT_TOL = F(1, 10 ** 12)      # relative, entries of a float-valued inverse
+
+
+def det_band(det):
+    a = abs(det)
+    return 'tiny' if a < TINY_DET else 'huge' if a > HUGE_DET else 'moderate'
+
+
+def check_inverse_exact(m, hits, num='frac'):
+    """One matrix given by exact Fractions m.
+
+    num == 'frac': the Fractions themselves are handed to Mat4; exact
+    comparison with adjugate/determinant and exact two-sided products.
+    num == 'float': every entry must be exactly representable as a binary
+    float; Mat4 gets the floats, the reference works on the Fractions of
+    those floats.  1/det is then rounded once and every entry is one more
+    rounded product, so the result is compared entry by entry with the exact
+    inverse with relative tolerance 1e-12 (the exact inverse itself is
+    verified to be two-sided over Fractions)."""
     feats = dict(cls='Mat4', op='invert')
-    what = f'~{show("Mat4", m)}'
-    M = dm.Mat4(m)
+    arg = m
+    if num == 'float':
+        feats['num'] = 'float'
+        arg = tuple(float(x) for x in m)
+        if any(F(a) != x for a, x in zip(arg, m)):
+            raise HarnessError(f'float case {m!r} is not exactly '
+                               'representable in binary floats')
+    elif num != 'frac':
+        raise HarnessError(f'unknown number kind {num!r}')
+    what = f'~{show("Mat4", arg)}'
+    M = dm.Mat4(arg)
     with warnings.catch_warnings(record=True) as log:
         warnings.simplefilter('always')
         r = call('mat4_inverse', feats, what, lambda: ~M)
@@ -1076,7 +1142,7 @@ def check_inverse_exact(m, hits):
         raise Violation('mat4_inverse', f'{what} -> {r!r}, not a Mat4',
                         kind='value', **feats)
     if det == 0:
-        if not same(r, m):
+        if not same(r, arg):
             raise Violation('mat4_inverse', f'{what} (singular) -> {t!r}, '
                             'expected the matrix unchanged',
                             kind='singular_changed', **feats)
@@ -1087,14 +1153,48 @@ def check_inverse_exact(m, hits):
         hits['singular_matrix'] = hits.get('singular_matrix', 0) + 1
         if r is M:
             hits['singular_returns_same_object'] = 1
+        biggest = max(abs(x) for x in m)
+        if biggest >= LARGE_ENTRY:
+            hits['singular_with_large_entries'] = \
+                hits.get('singular_with_large_entries', 0) + 1
+        elif 0 < biggest < F(1, 100):
+            hits['singular_with_tiny_entries'] = \
+                hits.get('singular_with_tiny_entries', 0) + 1
         return
-    if not same(r, inv):
-        raise Violation('mat4_inverse', f'{what} -> {t!r}, expected '
-                        f'{tuple(inv)} (det = {det})', kind='not_inverse',
-                        **feats)
-    if ref_matmul(m, t, 4) != list(I16) or ref_matmul(t, m, 4) != list(I16):
-        raise Violation('mat4_inverse', f'{what} -> {t!r} is not a '
-                        'two-sided inverse', kind='not_inverse', **feats)
+    band = det_band(det)
+    if same(r, arg) and list(inv) != list(m):
+        raise Violation(
+            'mat4_inverse', f'{what} -> the matrix itself'
+            f'{" with a warning" if log else ""}: it is not singular '
+            f'(det = {det} ~ {float(det):.3g}) and must be inverted',
+            kind='nonsingular_returned_unchanged', band=band, **feats)
+    if num == 'float':
+        if ref_matmul(m, inv, 4) != list(I16) or \
+                ref_matmul(inv, m, 4) != list(I16):
+            raise HarnessError(f'reference inverse of {m!r} is not two-sided')
+        try:
+            tf = [F(x) for x in t]
+        except (TypeError, ValueError, OverflowError):
+            raise Violation('mat4_inverse', f'{what} -> {t!r}, entries are '
+                            'not finite numbers', kind='not_inverse', **feats)
+        biggest = max(abs(e) for e in inv)
+        if not all(abs(x - e) <= FLOAT_TOL * (abs(e) if e else biggest)
+                   for x, e in zip(tf, inv)):
+            raise Violation(
+                'mat4_inverse', f'{what} -> {t!r}, expected (rel. 1e-12) '
+                f'{tuple(float(e) for e in inv)} (det = {det})',
+                kind='not_inverse', **feats)
+        hits['float_inverse_checked'] = \
+            hits.get('float_inverse_checked', 0) + 1
+    else:
+        if not same(r, inv):
+            raise Violation('mat4_inverse', f'{what} -> {t!r}, expected '
+                            f'{tuple(inv)} (det = {det})', kind='not_inverse',
+                            **feats)
+        if ref_matmul(m, t, 4) != list(I16) or \
+                ref_matmul(t, m, 4) != list(I16):
+            raise Violation('mat4_inverse', f'{what} -> {t!r} is not a '
+                            'two-sided inverse', kind='not_inverse', **feats)
     hits['nonsingular_matrix'] = hits.get('nonsingular_matrix', 0) + 1
     if det < 0:
         hits['negative_determinant'] = 1
@@ -1102,6 +1202,13 @@ def check_inverse_exact(m, hits):
         hits['determinant_not_unit'] = 1
     if list(m) != ref_transpose(m, 4):
         hits['asymmetric_matrix'] = 1
+    if band != 'moderate':
+        name = f'{band}_determinant'
+        hits[name] = hits.get(name, 0) + 1
+        if abs(det) < F(1, 10 ** 12):
+            hits['determinant_below_1e_12'] = 1
+        elif abs(det) < F(1, 10 ** 9):
+            hits['determinant_below_1e_9'] = 1
 
 
 def run_mat4_inverse(case):
@@ -1186,6 +1293,102 @@ def run_mat4_inverse_full(case):
     if nreg:
         hits['nonsingular_matrix'] = nreg
     return {'calls': nsing + nreg, 'hits': hits, 'key': case}
+
+
+# ---------------------------------------------------------------------------
+# part mat4_inverse_scaled: the determinant is homogeneous of degree 4 in the
+# entries (degree 1 in every row and column), so "singular" must not depend
+# on the magnitude of det.  Every matrix of a small complete row-product grid
+# (singular members included) is scaled - all entries, one row, one column -
+# and every 3x3 grid matrix A is embedded as the affine map "A times a
+# uniform scale s, then translate by t" = [[s*A, 0], [t, 1]].
+FACTORS = ('1/128', '1/1024', '1/1000', 1024)       # 2**-7 2**-10 10**-3 2**10
+FLOAT_FACTORS = ('1/128', '1/1024', 1024)           # powers of two only
+ROWS_INT = [
+    (1, 0, 0, 0), (0, 1, 0, 0), (0, 0, 1, 0), (0, 0, 0, 1),
+    (1, 2, 3, 5), (0, 3, -2, 1), (1, 1, 1, 1), (-2, 7, 0, 3),
+]
+SCALE_BASES = {
+    'rich6': ROWS_RICH[:6],         # 1 296 matrices, Fraction entries
+    'int6': ROWS_INT[:6],           # 1 296 integer matrices
+    'int8': ROWS_INT,               # 4 096 integer matrices
+    'rich12': ROWS_RICH[:12],       # the quick grid of mat4_inverse
+    'bin': ROWS_BIN,                # {0,1}^16
+}
+ROWS3 = {'bin3': list(product((0, 1), repeat=3)),           # {0,1}^9
+         'tern3': list(product((0, 1, -1), repeat=3))}      # {-1,0,1}^9
+TRANSLATIONS = ((0, 0, 0), (3, -4, 5), ('1/2', 2, -1))      # dyadic
+SCALE_MODES = ([('all', 0)] + [('row', k) for k in range(4)]
+               + [('col', k) for k in range(4)])
+
+
+def _scaled_cases(base, num):
+    n = len(SCALE_BASES[base])
+    return [('rows', base, i, j, mode, k, f, num)
+            for f in (FACTORS if num == 'frac' else FLOAT_FACTORS)
+            for mode, k in SCALE_MODES
+            for i in range(n) for j in range(n)]
+
+
+def _affine_cases(grid, num):
+    return [('affine', grid, i, ti, f, num)
+            for f in (FACTORS if num == 'frac' else FLOAT_FACTORS)
+            for ti in range(len(TRANSLATIONS))
+            for i in range(len(ROWS3[grid]))]
+
+
+def cases_mat4_inverse_scaled(tier):
+    # the quick family first: same minimal counterexamples in both tiers
+    cases = (_affine_cases('bin3', 'frac') + _affine_cases('bin3', 'float')
+             + _scaled_cases('rich6', 'frac') + _scaled_cases('int6', 'float'))
+    if tier == 'thorough':
+        cases += (_affine_cases('tern3', 'frac')
+                  + _affine_cases('tern3', 'float')
+                  + _scaled_cases('rich12', 'frac')
+                  + _scaled_cases('int8', 'float')
+                  + _scaled_cases('bin', 'float'))
+    return cases
+
+
+def run_mat4_inverse_scaled(case):
+    hits = {}
+    calls = 0
+    if case[0] == 'rows':
+        _, base, i, j, mode, k, f, num = case
+        rows = [fracs(r) for r in SCALE_BASES[base]]
+        s = F(dec(f))
+        top = rows[i] + rows[j]
+        for r2 in rows:
+            for r3 in rows:
+                m = list(top + r2 + r3)
+                if mode == 'all':
+                    m = [x * s for x in m]
+                elif mode == 'row':
+                    for c in range(4):
+                        m[4 * k + c] *= s
+                elif mode == 'col':
+                    for c in range(4):
+                        m[4 * c + k] *= s
+                else:
+                    raise HarnessError(f'unknown scaling mode {mode!r}')
+                check_inverse_exact(tuple(m), hits, num)
+                calls += 1
+    elif case[0] == 'affine':
+        _, grid, i, ti, f, num = case
+        rows = ROWS3[grid]
+        s = F(dec(f))
+        t = fracs(TRANSLATIONS[ti])
+        zero, one = F(0), F(1)
+        a0 = tuple(s * x for x in rows[i])
+        for a1 in rows:
+            for a2 in rows:
+                m = (a0 + (zero,) + tuple(s * x for x in a1) + (zero,)
+                     + tuple(s * x for x in a2) + (zero,) + t + (one,))
+                check_inverse_exact(m, hits, num)
+                calls += 1
+    else:
+        raise HarnessError(f'unknown case kind {case[0]!r}')
+    return {'calls': calls, 'hits': hits, 'key': case}
 
 
 # ---------------------------------------------------------------------------
@@ -1461,6 +1664,8 @@ PARTS = {
     'mat_laws': (cases_mat_laws, run_mat_laws),
     'mat4_constructors': (cases_mat4_constructors, run_mat4_constructors),
     'mat4_inverse': (cases_mat4_inverse, run_mat4_inverse),
+    'mat4_inverse_scaled': (cases_mat4_inverse_scaled,
+                            run_mat4_inverse_scaled),
     'mat4_inverse_full_grid': (cases_mat4_inverse_full,
                                run_mat4_inverse_full),
     'vec_float': (cases_vec_float, run_vec_float),
@@ -1474,6 +1679,10 @@ def run(tier, rep):
     rep.assumptions += ASSUMPTIONS
     rep.require_hits(
         singular_matrix=1, nonsingular_matrix=1, determinant_not_unit=1,
+        tiny_determinant=1, huge_determinant=1,
+        singular_with_large_entries=1, singular_with_tiny_entries=1,
+        float_inverse_checked=1, determinant_below_1e_9=1,
+        determinant_below_1e_12=1,
         limit_truncates=1, limit_keeps=1, limit_on_boundary=1,
         zero_vector_normalize=1, normalize_unit=1,
         swizzle_repeat_letter=1, swizzle_permutation=1,
